@@ -19,15 +19,36 @@ def _hist_key(ln):
     return ln
 
 
-def gen_cases(ctx, maxops, lines_out, par=False):
-    cfg = ("CONSTANTS\n  NClients = 8\n  Configs <- %s\n  MaxOps = %d\n  Defects = {}\n  LeaseOrder = \"lifo\"\n"
-           "SPECIFICATION Spec\nINVARIANTS EmitCase\nCHECK_DEADLOCK FALSE\n") % ("ConfigsQuick" if ctx.quick() else "ConfigsAll", maxops)
-    raw = os.path.join(ctx.tmp, "raw_%d_%s.jsonl" % (maxops, par))
+def close_inside_destroy(c):
+    """some connection has its close event delivered between the two steps of its stream destruction"""
+    ops = c["ops"]
+    for i, o in enumerate(ops):
+        if o["op"] == "dbegin":
+            for j in range(i + 1, len(ops)):
+                if ops[j].get("c") == o["c"] and ops[j]["op"] == "dend":
+                    break
+                if ops[j].get("c") == o["c"] and ops[j]["op"] == "rclose":
+                    return any(x["op"] == "dend" and x["c"] == o["c"] for x in ops[j + 1:])
+    return False
+
+
+def gen_cases(ctx, maxops, lines_out, par=False, split=None):
+    """split: None = atomic completions only; "all" = histories that contain a two-step completion;
+       "race" = of those, the ones with a close event inside a two-step completion"""
+    cfg = ("CONSTANTS\n  NClients = 8\n  Configs <- %s\n  MaxOps = %d\n  Defects = {}\n  SplitDestroy = %s\n  LeaseOrder = \"lifo\"\n"
+           "SPECIFICATION Spec\nINVARIANTS EmitCase\nCHECK_DEADLOCK FALSE\n") % (
+               "ConfigsQuick" if ctx.quick() else "ConfigsAll", maxops, "TRUE" if split else "FALSE")
+    raw = os.path.join(ctx.tmp, "raw_%d_%s_%s.jsonl" % (maxops, par, split))
     r = vlib.run_tlc(ctx, "pool", "PingPongPool", "PingPongPool_gen.cfg", workers=1, cases_to=raw, cfg_text=cfg, timeout=1200)
     ctx.add_tlc(r)
     n = 0
     for ln in sorted(set(open(raw).read().splitlines())):
         c = json.loads(ln)
+        if split:
+            if not any(o["op"] == "dbegin" for o in c["ops"]):
+                continue
+            if split == "race" and not close_inside_destroy(c):
+                continue
         if par:
             lastop = c["ops"][-1]
             if lastop["op"] not in ("reset", "garbage", "resp"):
@@ -56,7 +77,7 @@ def run(ctx):
     # 1. the design: exhaustive model check, defect switches must be rejected
     r = vlib.run_tlc(ctx, "pool", "PingPongPool", "PingPongPool.cfg" if q else "PingPongPool_thorough.cfg", timeout=1500)
     ctx.add_tlc(r)
-    for d in ("LeakOnReqOverflow", "DirtyReuse", "ClosedStaysIdle"):
+    for d in ("LeakOnReqOverflow", "DirtyReuse", "ClosedStaysIdle", "CheckThenActOutsideLock"):
         rr = vlib.run_tlc(ctx, "pool", "PingPongPool", "PingPongPool_defect_%s.cfg" % d, expect_ok=False)
         if rr["ok"] or not rr["violated"]:
             raise vlib.Inconclusive("PingPongPool does not reject defect " + d)
@@ -68,6 +89,11 @@ def run(ctx):
     gen_cases(ctx, depth + 1, deeper)              # one operation deeper: VERIF_SEED-chosen sample
     for d in ((3, 4) if q else (3, 4, 5)):
         gen_cases(ctx, d, par, par=True)
+    # completions taken in their two steps (destroy begun / returned to the idle list) with every other
+    # operation - in particular the connection's close event - in between
+    split = {}
+    gen_cases(ctx, depth, split, split="all")
+    gen_cases(ctx, depth + 1, split, split="race")
     seq_lines = sorted(seq)
     deep_lines = sorted(deeper)
     cap = 5000 if q else 10 ** 9
@@ -75,13 +101,13 @@ def run(ctx):
     if sampled:
         deep_lines = rng.sample(deep_lines, cap)
     seq_lines += deep_lines
-    all_lines = seq_lines + list(par)
+    all_lines = seq_lines + list(par) + sorted(split)
     rng.shuffle(all_lines)          # even load per shard; the order of cases does not matter (fresh pool per case)
     cases = os.path.join(ctx.tmp, "cases.jsonl")
     with open(cases, "w") as fo:
         fo.write("\n".join(all_lines) + "\n")
-    vlib.log("[c09] histories: %d of depth %d (all) + %d of depth %d%s + %d with a forced close window" % (
-        len(seq), depth, len(deep_lines), depth + 1, " (sampled)" if sampled else " (all)", len(par)))
+    vlib.log("[c09] histories: %d of depth %d (all) + %d of depth %d%s + %d with a forced close window + %d with two-step completions" % (
+        len(seq), depth, len(deep_lines), depth + 1, " (sampled)" if sampled else " (all)", len(par), len(split)))
 
     # 3. real pools
     binary = vlib.go_build("c09")
@@ -151,7 +177,9 @@ def run(ctx):
                        "remote close of a leased or idle connection, pool Close, pool Shutdown} enabled in PingPongPool "
                        "(configs max_connections x max_requests in %s), TLC-enumerated, replayed into the HTTP/1 pool and the xprotocol "
                        "ping-pong pool; histories of length 3..%d ending in an exchange end are replayed again with a NewStream forced "
-                       "into the connection's Close(); plus %d histories one operation deeper (VERIF_SEED sample when capped); "
+                       "into the connection's Close(); every history of that length that takes a completion in its two steps (stream destroyed with the "
+                       "destroying goroutine held at the request resource / returned to the idle list) with any operation in between, and the "
+                       "histories one operation longer in which that connection's close event falls between the two steps; plus %d histories one operation deeper (VERIF_SEED sample when capped); "
                        "distinct = histories x pools") % (
                            depth, "6 of {0,1,2}^2" if q else "{0,1,2}^2", 4 if q else 5, len(deep_lines))
     ctx.assumptions += [
